@@ -419,7 +419,7 @@ func rawTimeElem(ns uint64) elem { // DTime over an arbitrary uint64 (not produc
 }
 
 func genElem(r *vx.Rng, allowBadCfg bool) elem {
-	switch r.Intn(16) {
+	switch r.Intn(19) {
 	case 0:
 		n := r.Intn(5)
 		data := rbytes(r, n)
@@ -520,7 +520,7 @@ func genElem(r *vx.Rng, allowBadCfg bool) elem {
 					return joinT("ONum", vx.ZU(uint64(v)))
 				}
 			}}
-	case 13, 14:
+	case 13, 14, 15, 16, 17:
 		l := vx.Pick(r, goodLpts)
 		it := itemKind{kind: 0, k: r.Intn(4)}
 		if r.Chance(1, 3) {
@@ -530,7 +530,12 @@ func genElem(r *vx.Rng, allowBadCfg bool) elem {
 		}
 		count := r.Intn(6)
 		var items [][]byte
+		pool := r.Chance(1, 2) // draw from two values: duplicates and ties are common
 		for i := 0; i < count; i++ {
+			if pool && len(items) >= 2 {
+				items = append(items, exact(items[r.Intn(2)]))
+				continue
+			}
 			switch it.kind {
 			case 0:
 				x := make([]byte, it.k)
@@ -547,7 +552,7 @@ func genElem(r *vx.Rng, allowBadCfg bool) elem {
 				items = append(items, x)
 			}
 		}
-		if r.Chance(1, 3) { // sorted input so that lexical modes pass
+		if r.Chance(1, 2) { // sorted input so that lexical modes pass
 			for i := range items {
 				for j := i + 1; j < len(items); j++ {
 					if string(items[j]) < string(items[i]) {
